@@ -12,7 +12,10 @@ for d in $LIST; do
   m=$(basename $d)
   git -C "$REPO" checkout -- . 2>/dev/null
   if ! git -C "$REPO" apply "$(pwd)/$d/patch.diff"; then echo "$m APPLY-FAILED" >> "$OUT"; continue; fi
-  for p in C01 C02 C03 C04 C05 C06 C07 C08 C09 C10 C11 C12 C13 C14 C15 C16; do
+  ALL="C01 C02 C03 C04 C05 C06 C07 C08 C09 C10 C11 C12 C13 C14 C15 C16"
+  # MATRIX_OWN=1: only the check of the property the change was written against
+  [ -n "$MATRIX_OWN" ] && ALL=$(echo $m | cut -c1-3)
+  for p in $ALL; do
     o=$(timeout 1800 ./bin/check $p 2>&1); rc=$?
     v=$(echo "$o" | grep -c "^VIOLATION")
     nf=$(echo "$o" | grep "^VIOLATION" | grep -c "no-failing-input-found")
